@@ -36,6 +36,8 @@ CONSTANTS Alphabet,   \* set of mutator command texts used by the generator
           PreAlphabet,\* ... for the parent's prelude (before the fork)
           Kinds,      \* subset of {"Paren","CmdSubst","Pipe","Async"}
           Ctxs,       \* subset of {"main","trap"}: where the construct is executed
+          Modes,      \* subset of {"script","interactive"}: the parent shell
+          Fins,       \* subset of AllFins: how the subshells of the scenario end
           MaxPre, MaxChild, MaxPost, MaxTotal,
           MinPre,     \* the fork may happen only after at least this many prelude mutators
           MinTotal,   \* a scenario may end early only with at least this many mutators
@@ -54,6 +56,7 @@ EKeys == {"val:a", "exp:a", "ro:a", "val:b", "exp:b", "ro:b", "val:PWD", "val:OL
           "func:f", "alias:al", "opt:glob", "opt:clobber", "pos:#", "pos:1", "pos:2",
           "opt:allexport", "opt:errexit", "opt:monitor", "opt:notify", "opt:pipefail", "opt:unset",
           "opt:verbose", "opt:xtrace", "opt:hashondefinition", "opt:ignoreeof",
+          "opt:interactive", "opt:cmdline", "opt:stdin", "trap:TSTP", "trap:TTIN", "trap:TTOU",
           "trap:INT", "trap:QUIT", "trap:TERM", "trap:USR1", "trap:USR2", "trap:CHLD", "trap:EXIT",
           "pend:USR1"}
 KKeys == {"cwd", "umask", "disp:INT", "disp:QUIT", "disp:TERM", "disp:USR1", "disp:USR2",
@@ -71,6 +74,7 @@ InitMap ==
        [] k = "opt:glob"    -> "on"
        [] k = "opt:clobber" -> "on"
        [] k = "opt:unset"   -> "on"
+       [] k = "opt:cmdline" -> "on"
        [] k = "pos:#"       -> "2"
        [] k = "pos:1"       -> "p"
        [] k = "pos:2"       -> "q"
@@ -79,11 +83,28 @@ InitMap ==
        [] k = "fd:2"        -> "o2"
        [] OTHER             -> "-"]
 
+(* ... and when run as `yash -i -s p q` with the script on standard input:  *)
+(* job control is on by default, and the interactive shell itself catches   *)
+(* SIGINT and ignores SIGTERM and SIGQUIT (XCU 2.12 / sh: "an interactive   *)
+(* shell shall ignore SIGTERM ... SIGQUIT"), which is not a trap.           *)
+InitMapFor(mode) ==
+  IF mode = "interactive"
+  THEN [k \in MK |->
+          CASE k = "opt:interactive" -> "on"
+            [] k = "opt:monitor"     -> "on"
+            [] k = "opt:stdin"       -> "on"
+            [] k = "opt:cmdline"     -> "-"
+            [] k = "disp:INT"        -> "catch"
+            [] k = "disp:TERM"       -> "ignore"
+            [] k = "disp:QUIT"       -> "ignore"
+            [] OTHER                 -> InitMap[k]]
+  ELSE InitMap
+
 -----------------------------------------------------------------------------
 (* symbolic names of open file descriptions created during a scenario *)
-Who == {"pre", "post", "c1", "c2"}
+Who == {"pre", "post", "c1", "c2", "c3", "c4"}
 Fresh(who, i) == "n:" \o who \o ":" \o ToString(i)
-PlumbNames == {"n:pipeW", "n:pipe1W", "n:pipe1R", "n:devnull"}
+PlumbNames == {"n:pipeW", "n:pipe1W", "n:pipe1R", "n:pipeInR", "n:pipeOutW", "n:devnull"}
 SymSet == {Fresh(w, i) : w \in Who, i \in 1..16} \cup PlumbNames
 
 -----------------------------------------------------------------------------
@@ -191,6 +212,18 @@ OptOnCmds ==
 CorePreCmds == CoreCmds \cup OptOnCmds
 
 AllKinds == {"Paren", "CmdSubst", "Pipe", "Async"}
+(* pipelines of 3 and 4 commands and negated ones (each command a subshell) *)
+WideKinds == {"Pipe3", "Pipe4", "NotPipe", "NotPipe3"}
+EndKinds  == AllKinds \cup {"Pipe3"}
+EveryKind == AllKinds \cup WideKinds
+ScriptMode == {"script"}
+BothModes  == {"script", "interactive"}
+(* how a subshell ends (after its last snapshot): falling off the end,      *)
+(* exit, a signal it sends to itself (`selfkill` is a probe: $$ is the main *)
+(* shell's pid everywhere), errexit, an error of a special built-in         *)
+NormalFin == {"normal"}
+EndCmds == {"a=1", "cd /tmp", "exec 3>>/tmp/f3", "trap 'probe e' EXIT"}
+AllFins == {"normal", "exit 3", "selfkill INT", "selfkill TERM", "selfkill KILL", "set -e; status 1", "shift 5"}
 MainCtx  == {"main"}
 TrapCtx  == {"trap"}
 BothCtxs == {"main", "trap"}
@@ -198,7 +231,9 @@ BothCtxs == {"main", "trap"}
 Roles(kind) ==
   CASE kind = "Paren"    -> <<"paren">>
     [] kind = "CmdSubst" -> <<"cmdsubst">>
-    [] kind = "Pipe"     -> <<"pipe_first", "pipe_last">>
+    [] kind \in {"Pipe", "NotPipe"}   -> <<"pipe_first", "pipe_last">>
+    [] kind \in {"Pipe3", "NotPipe3"} -> <<"pipe_first", "pipe_mid", "pipe_last">>
+    [] kind = "Pipe4"    -> <<"pipe_first", "pipe_mid", "pipe_mid", "pipe_last">>
     [] kind = "Async"    -> <<"async">>
 
 -----------------------------------------------------------------------------
@@ -217,7 +252,10 @@ En(c, S, role) ==
     [] s.op = "unalias" -> S["alias:" \o s.n] # "-"
     [] s.op = "shift"   -> S["pos:#"] # "0"
     [] s.op = "dup"     -> S["fd:" \o s.src] # "-"     \* descriptor 3 is only ever opened for output
-    [] s.op = "trap"    -> ~(role = "async" /\ s.c \in {"INT", "QUIT"})
+    [] s.op = "trap"    -> /\ ~(role = "async" /\ s.c \in {"INT", "QUIT"})
+                           \* the interactive shell's own handling of these is not modelled
+                           /\ ~(role = "parent" /\ S["opt:interactive"] = "on" /\ s.c \in {"INT", "QUIT", "TERM"})
+    [] s.op = "opt"     -> ~(role = "parent" /\ S["opt:interactive"] = "on" /\ s.n = "monitor")
     [] OTHER            -> TRUE
 
 Upd(S, u) == [k \in DOMAIN S |-> IF k \in DOMAIN u THEN u[k] ELSE S[k]]
@@ -287,13 +325,22 @@ TrapImg(S, role, c) ==
   ELSE IF S["trap:" \o c] \in {"-", "ignore"} THEN S["trap:" \o c] ELSE "-"
 DispImg(S, role, c) ==
   IF role = "async" /\ NoJobControl(S) /\ c \in {"INT", "QUIT"} THEN "ignore"
-  ELSE IF S["disp:" \o c] = "catch" THEN "-" ELSE S["disp:" \o c]
+  ELSE DispOf(TrapImg(S, role, c))   \* what the shell itself catches or ignores is not inherited
+(* yash-env subshell::Config (doc comment of `job_control`): "If the parent  *)
+(* process is a job-controlling interactive shell, but the subshell is not  *)
+(* job-controlled, the subshell's signal dispositions for SIGTSTP, SIGTTIN, *)
+(* and SIGTTOU are set to Ignore" -- of the kinds here only the command     *)
+(* substitution is started without job control from such a shell.           *)
+StopImg(S, role, c) ==
+  IF role = "cmdsubst" /\ S["opt:interactive"] = "on" /\ S["opt:monitor"] = "on" THEN "ignore"
+  ELSE TrapImg(S, role, c)
 
 Plumb(role) ==
   CASE role = "paren"      -> <<>>
     [] role = "cmdsubst"   -> ("fd:1" :> "n:pipeW")
     [] role = "pipe_first" -> ("fd:1" :> "n:pipe1W")
     [] role = "pipe_last"  -> ("fd:0" :> "n:pipe1R")
+    [] role = "pipe_mid"   -> ("fd:0" :> "n:pipeInR" @@ "fd:1" :> "n:pipeOutW")
     [] role = "async"      -> ("fd:0" :> "n:devnull")
 
 (* fork(): "the set of signals pending for the child process shall be      *)
@@ -305,6 +352,8 @@ ForkImage(S, role) ==
          "trap:TERM" :> TrapImg(S, role, "TERM") @@ "trap:EXIT" :> TrapImg(S, role, "EXIT") @@
          "trap:USR1" :> TrapImg(S, role, "USR1") @@ "trap:USR2" :> TrapImg(S, role, "USR2") @@
          "trap:CHLD" :> TrapImg(S, role, "CHLD") @@
+         "trap:TSTP" :> StopImg(S, role, "TSTP") @@ "trap:TTIN" :> StopImg(S, role, "TTIN") @@
+         "trap:TTOU" :> StopImg(S, role, "TTOU") @@
          "disp:INT"  :> DispImg(S, role, "INT")  @@ "disp:QUIT" :> DispImg(S, role, "QUIT") @@
          "disp:TERM" :> DispImg(S, role, "TERM") @@
          "disp:USR1" :> DispImg(S, role, "USR1") @@ "disp:USR2" :> DispImg(S, role, "USR2") @@
@@ -337,19 +386,20 @@ OwnActs(seq) == {Sem(seq[i]).a : i \in {x \in 1..Len(seq) : Sem(seq[x]).op = "tr
 (* The scenario machine: parent prelude, fork of one construct, the         *)
 (* subshell(s) and -- for the concurrent kinds -- the parent and the        *)
 (* sibling running their mutators in every interleaving, join.              *)
-VARIABLES phase, kind, ctx, pre, chs, post,   \* the scenario (what the harness renders)
+VARIABLES phase, kind, ctx, mode, fin, pre, chs, post,   \* the scenario (what the harness renders)
           P,                             \* the parent's map
           P0,                            \* ... at the fork ("before")
           C, C0,                         \* the children's maps, now and on entry
           ran                            \* trap actions each child has run
-vars == <<phase, kind, ctx, pre, chs, post, P, P0, C, C0, ran>>
+vars == <<phase, kind, ctx, mode, fin, pre, chs, post, P, P0, C, C0, ran>>
 
 RECURSIVE SumLen(_, _)
 SumLen(ss, i) == IF i > Len(ss) THEN 0 ELSE Len(ss[i]) + SumLen(ss, i + 1)
 Total == Len(pre) + SumLen(chs, 1) + Len(post)
 
 Init == /\ phase = "pre" /\ kind = "-" /\ ctx = "-" /\ pre = <<>> /\ chs = <<>> /\ post = <<>>
-        /\ P = InitMap /\ P0 = InitMap /\ C = <<>> /\ C0 = <<>> /\ ran = <<>>
+        /\ mode \in Modes /\ fin = "-"
+        /\ P = InitMapFor(mode) /\ P0 = P /\ C = <<>> /\ C0 = <<>> /\ ran = <<>>
 
 PreStep ==
   /\ phase = "pre" /\ Len(pre) < MaxPre /\ Total < MaxTotal
@@ -357,7 +407,7 @@ PreStep ==
        /\ En(c, P, "parent")
        /\ P' = Ap(c, P, Fresh("pre", Len(pre) + 1))
        /\ pre' = Append(pre, c)
-  /\ UNCHANGED <<phase, kind, ctx, chs, post, P0, C, C0, ran>>
+  /\ UNCHANGED <<phase, kind, ctx, mode, fin, chs, post, P0, C, C0, ran>>
 
 Fork ==
   /\ phase = "pre" /\ (Len(pre) >= MinPre \/ Len(pre) = MaxPre)
@@ -368,7 +418,7 @@ Fork ==
        /\ chs' = [j \in 1..Len(Roles(k)) |-> <<>>]
        /\ ran' = [j \in 1..Len(Roles(k)) |-> {}]
   /\ C0' = C' /\ P0' = P' /\ phase' = "run"
-  /\ UNCHANGED <<pre, post>>
+  /\ UNCHANGED <<pre, post, mode, fin>>
 
 ChildStepOf(j) ==
   /\ phase = "run" /\ Len(chs[j]) < MaxChild /\ Total < MaxTotal
@@ -377,7 +427,7 @@ ChildStepOf(j) ==
        /\ C' = [C EXCEPT ![j] = Ap(c, C[j], Fresh("c" \o ToString(j), Len(chs[j]) + 1))]
        /\ chs' = [chs EXCEPT ![j] = Append(@, c)]
        /\ ran' = [ran EXCEPT ![j] = @ \cup Triggered(c, C[j], C'[j])]
-  /\ UNCHANGED <<phase, kind, ctx, pre, post, P, P0, C0>>
+  /\ UNCHANGED <<phase, kind, ctx, mode, fin, pre, post, P, P0, C0>>
 
 (* the parent goes on while an asynchronous list runs *)
 ParentStep ==
@@ -386,13 +436,19 @@ ParentStep ==
        /\ En(c, P, "parent")
        /\ P' = Ap(c, P, Fresh("post", Len(post) + 1))
        /\ post' = Append(post, c)
-  /\ UNCHANGED <<phase, kind, ctx, pre, chs, P0, C, C0, ran>>
+  /\ UNCHANGED <<phase, kind, ctx, mode, fin, pre, chs, P0, C, C0, ran>>
 
 Saturated == /\ \A j \in 1..Len(chs) : Len(chs[j]) = MaxChild
              /\ kind = "Async" => Len(post) = MaxPost
 Finish == /\ phase = "run" /\ phase' = "done"
+          /\ fin' \in Fins      \* however the subshells end, nothing else changes
+          \* (with errexit on, the PARENT rightly exits on a failing subshell: left out)
+          /\ P["opt:errexit"] = "on" => fin' = "normal"
+          \* (an interrupt in an interactive shell abandons the command line being executed,
+          \*  here the trap action that contains the construct and the "after" probe: left out)
+          /\ (ctx = "trap" /\ mode = "interactive") => fin' # "selfkill INT"
           /\ Total >= MinTotal \/ Total = MaxTotal \/ Saturated
-          /\ UNCHANGED <<kind, ctx, pre, chs, post, P, P0, C, C0, ran>>
+          /\ UNCHANGED <<kind, ctx, mode, pre, chs, post, P, P0, C, C0, ran>>
 
 (* NEGATIVE TEST ONLY: the child's variables are the parent's (a shared     *)
 (* reference instead of a copy).                                            *)
@@ -402,7 +458,7 @@ LeakStepOf(j) ==
   /\ C' = [C EXCEPT ![j] = Ap("a=2", C[j], "-")]
   /\ P' = Ap("a=2", P, "-")
   /\ chs' = [chs EXCEPT ![j] = Append(@, "a=2")]
-  /\ UNCHANGED <<phase, kind, ctx, pre, post, P0, C0, ran>>
+  /\ UNCHANGED <<phase, kind, ctx, mode, fin, pre, post, P0, C0, ran>>
 
 ChildStep == \E j \in 1..Len(chs) : ChildStepOf(j)
 LeakStep  == \E j \in 1..Len(chs) : LeakStepOf(j)
@@ -462,8 +518,8 @@ Final ==
 Delta(A, B) == [k \in {x \in MK : A[x] # B[x]} |-> B[k]]
 
 Scenario ==
-  [kind |-> kind, ctx |-> ctx, pre |-> pre, ch |-> chs, post |-> post,
-   exp  |-> [before |-> Delta(InitMap, P0),
+  [kind |-> kind, ctx |-> ctx, mode |-> mode, fin |-> fin, pre |-> pre, ch |-> chs, post |-> post,
+   exp  |-> [before |-> Delta(InitMapFor(mode), P0),
              entry  |-> [j \in 1..Len(C0) |-> Delta(P0, C0[j])],
              end    |-> [j \in 1..Len(C)  |-> Delta(C0[j], C[j])],
              after  |-> Delta(P0, P),
